@@ -87,7 +87,9 @@ impl<R: AsyncRead + Unpin, TSpec> TagIteratorAsync<R, TSpec>
             }
             match EBMLSize::new(size, size_len) {
                 EBMLSize::Known(size) if !is_master => return data_len >= size,
-                EBMLSize::Known(size) if data_len < size => return false,
+                // The children of a buffered master are read by the same call.  The header of a (corrupt) child may reach past
+                // the end of the master - at most by one byte less than the longest possible header (8 byte id + 8 byte size)
+                EBMLSize::Known(size) if data_len < size.saturating_add(15) => return false,
                 // The end of a buffered master is found while reading the tag that follows it
                 EBMLSize::Known(size) => position += id_len + size_len + size,
                 // A buffered master of unknown size ends with the first element that is not one of its children, or with the source
